@@ -74,7 +74,7 @@ PROPS = {
     ),
     "C19": dict(
         modules=["JPV.Props.C19"],
-        theorems=["JPV.Props.C19_linecol", "JPV.Props.C19_offset", "JPV.Props.C19_tokens"],
+        theorems=["JPV.Props.C19", "JPV.Props.C19_linecol", "JPV.Props.C19_offset", "JPV.Props.C19_tokens"],
         tables=[T + "regexes_model", T + "exceptions_model"],
         explore=ct.explore_c19,
     ),
@@ -142,7 +142,7 @@ PROPS = {
     ),
     "C17": dict(
         modules=["JPV.Props.C17"],
-        theorems=["JPV.Props.C17_shuffle_perm", "JPV.Props.C17_merge_interleaves", "JPV.Props.C17_children", "JPV.Props.C17_partial", "JPV.Props.C17_permitted",
+        theorems=["JPV.Props.C17_permitted_rel", "JPV.Props.C17_permitted_wt_rel", "JPV.Props.C17_oracle_exact", "JPV.Props.C17_deterministic_permitted", "JPV.Props.C17_shuffle_perm", "JPV.Props.C17_merge_interleaves", "JPV.Props.C17_children", "JPV.Props.C17_partial", "JPV.Props.C17_permitted",
                   "JPV.Props.C17_permitted_wt", "JPV.Props.C17_permitted_builtin"],
         tables=[T + "random_sites_model", T + "env_defaults_model"],
         explore=cn.explore_c17,
